@@ -101,6 +101,18 @@ CLAIMED['C04'] = dict(
   note='Assume/guarantee: clf.exchange raises only CommunicationError subclasses or IOError (C13). Implicit IndexError sites on short frames are '
        'the subject of C07. Loop-progress kinds are an enumerated table of the idioms in nfc/dep.py.',
   technique='CFG dominance + finite evaluation of bit layouts + exception-escape analysis + loop-progress classification (ast)')
+CLAIMED['C14'] = dict(
+  category='other',
+  text='Frame construction: the PN53x command-frame and RC-S380 frame expressions are extracted and evaluated by the checker for every '
+       'payload length (both PN53x formats, all chip maxima) and validated by an independent reading of the frame formats. Acceptance: response '
+       'data is returned only through the passing branch of every framing check, every failing branch raises IOError, header offsets are '
+       'mutually consistent and every read used by a check is length-guarded (CFG lower bounds); same for the ACR122 CCID/pseudo-APDU '
+       'envelope. CRC: parameters, bit order, complement and add/check sibling agreement; Type 1/2 Tag data is returned only where the CRC '
+       'check passed. That calculate_crc equals the ISO/IEC 14443-3 CRC for every message is an arithmetic identity and is not decided.',
+  design_ref='DESIGN.md section 3 C14',
+  note='Trusted: the frame formats as written in the checker validators (NXP UM0701-02, CCID, RC-S380), struct semantics. One defect repaired '
+       '(truncated response headers raised IndexError/struct.error).',
+  technique='finite evaluation of extracted frame expressions against an independent validator + CFG dominance/bounds (ast)')
 NA_REASON = {}
 def main():
     checks = []
